@@ -12,6 +12,12 @@ CHECKS = {
  "C07": dict(cat="model_checking", ref="§3 C07",
    text="Complete search of the AKE state graph on a reliable FIFO network: for every policy/version pair sharing a version, every start state (plaintext, encrypted refresh, one side finished), every trigger kind (query, whitespace tag, error restart, Send under required encryption) and every initiator pattern (A, B, one first and the other at any later moment incl. simultaneously), all interleavings of deliveries are executed on the real conversations until quiescence; at quiescence both must be encrypted in one common (new) session and a probe text must be readable both ways.",
    tech="explicit-state model checking of the implementation (all delivery interleavings to quiescence)"),
+ "C05": dict(cat="model_checking", ref="§3 C05",
+   text="Explicit-state exploration with a recording network that may reorder and duplicate (deviation bound D), optional SMP run and End()+re-AKE: in every distinct reachable state every data message that was accepted before (whole fragment stream) is re-delivered to a clone of its receiver and must yield no plaintext, no SMP/security/key event and no reply other than an OTR error; on every path each sent text is delivered at most once.",
+   tech="explicit-state model checking of the implementation with replay probes on cloned states"),
+ "C18": dict(cat="model_checking", ref="§3 C18",
+   text="All sequences of lifecycle operations of both sides (query, Send, End, injected error report, clock tick) within an event budget, interleaved with every FIFO delivery order, from plaintext and from sessions with history, under several policy sets; a lock-step reference checks the legal IsEncrypted transitions and their triggers, the exact security events per transition, refusal of Send after the peer's disconnect, and a transmission ledger built by opening every emitted data message.",
+   tech="explicit-state model checking of the implementation against a lock-step lifecycle/ledger reference model"),
 }
 NA_REASON = "check not built yet (work in progress; see DESIGN.md §3 for the planned bounded exploration)"
 def main():
